@@ -68,6 +68,9 @@ def cases(ctx):
         if kind == "int" and rng.random() < 0.6:
             that = int(round(that))  # integer estimate with integer replicates (an integer-valued metric)
         alpha = float(rng.choice([0.05, 0.1, 0.5, 0.01, 0.9, float(rng.uniform(0.001, 0.999))]))
+        if kind not in ("int",) and rng.random() < 0.3:  # replicates of another magnitude (small rates, large counts): exact power-of-two scaling
+            c = 2.0 ** int(rng.integers(-45, 46))
+            th, that, kind = th * c, that * c, kind + "*2^k"
         yield {"theta": th, "that": that, "alpha": alpha, "alpha2": float(rng.uniform(0.001, 0.999)), "kind": kind,
                "ashape": [int(x) for x in rng.integers(1, 3, int(rng.integers(0, 4)))], "yshape": [int(x) for x in rng.integers(1, 4, int(rng.integers(1, 3)))],
                "_seed": int(rng.integers(1 << 31)), "k": int(rng.integers(-2, 4)), "d": int(rng.integers(-5, 6))}
@@ -113,7 +116,7 @@ def execute(ctx, case):
     thf = th.astype(float)
     fin = thf[~np.isnan(thf)]
     lo_f, hi_f = float(fin.min()), float(fin.max())
-    scale = max(1.0, float(np.abs(fin).max()))
+    scale = float(np.abs(fin).max()) or 1.0  # relative to the replicates' own magnitude
     tol = 1e-9 * scale + 4e-14 * len(th) * (hi_f - lo_f)
     sess.observe("R-bci")
     for method in METHODS:
@@ -145,8 +148,10 @@ def execute(ctx, case):
                 sess.check("R-bci", c_s[0] <= c_b[0] + tol and c_b[1] <= c_s[1] + tol, "intervals not nested in alpha",
                            w(alpha_small=a_small, alpha_big=a_big, ci_small=c_s, ci_big=c_b), sig=sig, key="bci-nested")
         # exact affine map
-        if case["kind"] in ("dyadic", "int", "lattice"):
+        if case["kind"].split("*")[0] in ("dyadic", "int", "lattice"):
             c, d = 2.0 ** case["k"], float(case["d"])
+            if "*" in case["kind"]:
+                d = 0.0  # an integer offset is exact on the dyadic grid only; rescaled data keeps the pure (exact) scaling
             ci3 = bootstrap_ci(c * thf + d, c * that + d, alpha, method=method)
             sess.check("R-bci", bool(np.allclose(ci3, c * ci + d, rtol=0, atol=max(c, 1) * tol * 4, equal_nan=True)), "limits not equivariant under an increasing affine map",
                        w(c=c, d=d, ci_mapped=ci3), sig=sig, key="bci-affine")
